@@ -362,6 +362,14 @@ func (e *env) newAdapter(prio bool) *adapter {
 	return a
 }
 
+// newObjAdapter: a custom in-memory queue (WithQueue) that also acknowledges; it stores the job objects themselves, so the
+// producer's handle and the job the worker runs are one object with an acknowledgement ID
+func (e *env) newObjAdapter() *adapter {
+	a := e.newAdapter(false)
+	a.objMode = true
+	return a
+}
+
 func (e *env) adapterFor(i int, prio bool) *adapter {
 	// distributed programs may share adapter 0 between queues
 	return e.newAdapter(prio)
@@ -380,6 +388,8 @@ func (e *env) setup() {
 			switch kind {
 			case "prio":
 				return &errQ{e: e, pq: wb.BindPriorityQueue()}
+			case "ackq":
+				return &errQ{e: e, q: wb.WithQueue(e.newObjAdapter())}
 			default:
 				return &errQ{e: e, q: wb.BindQueue()}
 			}
@@ -393,6 +403,8 @@ func (e *env) setup() {
 			switch kind {
 			case "prio":
 				return &resQ{e: e, pq: wb.BindPriorityQueue()}
+			case "ackq":
+				return &resQ{e: e, q: wb.WithQueue(e.newObjAdapter())}
 			default:
 				return &resQ{e: e, q: wb.BindQueue()}
 			}
@@ -406,6 +418,8 @@ func (e *env) setup() {
 			switch kind {
 			case "prio":
 				return &plainQ{e: e, pq: wb.BindPriorityQueue()}
+			case "ackq":
+				return &plainQ{e: e, q: wb.WithQueue(e.newObjAdapter())}
 			case "pers":
 				return &plainQ{e: e, sq: wb.WithPersistentQueue(e.newAdapter(false))}
 			case "persprio":
